@@ -1297,4 +1297,68 @@ theorem inv_collect {cs : List Chunk} {v : Variant} {c : Cfg} {rest : List Item}
   · intro _; exact h.tempSome (by omega) (by omega)
   · intro _ _; exact h.termLate (by omega) (by omega)
 
+
+/-! ## steps of the chunk writers -/
+
+
+/-- names an operation may change -/
+def opNames : Op → List Name
+  | .openTrunc _ n => [n]
+  | .write _ n _ => [n]
+  | .rename _ a b => [a, b]
+  | .unlink _ n => [n]
+  | _ => []
+
+/-- effect of an operation on the temp directory -/
+theorem apply_tempOp {fs fs' : FS} {o : Op} (ho : tempOp o = true) (h : apply fs o = .ok fs') :
+    fs'.final = fs.final ∧ ∃ t t', fs.temp = some t ∧ fs'.temp = some t' ∧ (∀ x, x ∉ opNames o → t'.get x = t.get x) ∧
+      (∀ n, o = .openTrunc .temp n → t'.get n = some .empty) ∧
+      (∀ n c, o = .write .temp n c → t'.get n = some c) ∧
+      (∀ a b, o = .rename .temp a b → t'.get b = t.get a) := by
+  cases o with
+  | openTrunc d n =>
+    cases d <;> simp [tempOp] at ho
+    simp only [apply, FS.dir] at h
+    split at h <;> simp at h
+    rename_i t ht
+    subst h
+    refine ⟨rfl, t, t.set n .empty, ht, rfl, ?_, ?_, by simp, by simp⟩
+    · intro x hx; simp [opNames] at hx; rw [Dir.get_set]; simp [hx]
+    · intro n' hn'; injection hn' with _ hn'; subst hn'; rw [Dir.get_set]; simp
+  | write d n c =>
+    cases d <;> simp [tempOp] at ho
+    simp only [apply, FS.dir] at h
+    split at h
+    · rename_i t ht
+      split at h <;> simp at h
+      subst h
+      refine ⟨rfl, t, t.set n c, ht, rfl, ?_, by simp, ?_, by simp⟩
+      · intro x hx; simp [opNames] at hx; rw [Dir.get_set]; simp [hx]
+      · intro n' c' he; injection he with _ hn' hc'; subst hn'; subst hc'; rw [Dir.get_set]; simp
+    · simp at h
+  | close d n =>
+    cases d <;> simp [tempOp] at ho
+    simp only [apply, FS.dir] at h
+    cases ht : fs.temp with
+    | none => simp [ht] at h
+    | some t =>
+      simp [ht] at h
+      subst h
+      refine ⟨rfl, t, t, ?_, ?_, fun _ _ => rfl, by simp, by simp, by simp⟩ <;> simp_all
+  | rename d a b =>
+    cases d <;> simp [tempOp] at ho
+    simp only [apply, FS.dir] at h
+    split at h
+    · rename_i t ht
+      split at h
+      · rename_i c0 hc0
+        simp at h
+        subst h
+        refine ⟨rfl, t, (t.del a).set b c0, ht, rfl, ?_, by simp, by simp, ?_⟩
+        · intro x hx; simp [opNames] at hx; rw [Dir.get_set, Dir.get_del]; simp [hx.1, hx.2]
+        · intro a' b' he; injection he with _ ha' hb'; subst ha'; subst hb'; rw [Dir.get_set]; simp [hc0]
+      · simp at h
+    · simp at h
+  | _ => simp [tempOp] at ho
+
 end Strax.FS
